@@ -301,7 +301,7 @@ def known_term(it):
     c2 = dict(c)
     k = 1.0 / 65536
     c2.update({"dt": c["dt"] * k, "t_max": c["t_max"] * k, "t_sample": [t * k for t in c["t_sample"]], "interval": c["interval"] * k})
-    o2 = child.map_children("c10", "observe_term", [c2], timeout=12, env=(engine_build.san_env() if c.get("sanitize") else None))[0]
+    o2 = child.map_children("c10", "observe_term", [c2], timeout=12, env=(engine_build.san_env() if c.get("sanitize") else None), confirm=True)[0]
     if "iterations" in o2 and o2.get("complete"):
         return ("F20", "tau-leap with a leap so large (or a population growing so fast) that the expected number of firings of a channel in one "
                        "step exceeds the range of int or is infinite: std::poisson_distribution<int> does not return from such a mean (the same "
@@ -314,7 +314,7 @@ def term_items(cases, run=None, sanitize=False):
     for c in cases:
         c["sanitize"] = sanitize
     env = engine_build.san_env() if sanitize else None
-    obs = child.map_children("c10", "observe_term", cases, timeout=12, env=env)
+    obs = child.map_children("c10", "observe_term", cases, timeout=12, env=env, confirm=True)
     items = []
     for c, o in zip(cases, obs):
         gc, go = emit_term(c, o)
@@ -331,7 +331,7 @@ def build_items(hists, run=None, sanitize=False):
     engine_build.build(sanitize)
     cases = [{"history": h, "sanitize": sanitize} for h in hists]
     env = engine_build.san_env() if sanitize else None
-    obs = child.map_children("c10", "observe", cases, timeout=15, env=env)
+    obs = child.map_children("c10", "observe", cases, timeout=15, env=env, confirm=True)
     items = []
     for c, o in zip(cases, obs):
         gc, go = emit(c, o)
